@@ -761,6 +761,19 @@ NextPin:
 			rollback()
 			return fmt.Errorf("Node type must be sent with new edges")
 		}
+		// a new edge must not make the node an ancestor of itself, the
+		// upstream walks in updateHash and in the store never terminate in a
+		// graph with a cycle
+		cycle, err := sdb.isAncestor(tx, nodeID, parentID)
+		if err != nil {
+			rollback()
+			return err
+		}
+		if cycle {
+			rollback()
+			return fmt.Errorf("Error, %v is upstream of %v, edge would create a cycle", nodeID, parentID)
+		}
+
 		// did not find edge, need to add it
 		edge.Up = parentID
 		edge.Down = nodeID
@@ -880,6 +893,48 @@ func (sdb *DbSqlite) updateHashEdge(tx *sql.Tx, edgeID string, edgeHash uint32, 
 	}
 
 	return sdb.writeHashes(tx, cache)
+}
+
+// isAncestor returns true if ancestor is id or can be reached from id by
+// walking upstream through any (live or deleted) edges.
+func (sdb *DbSqlite) isAncestor(tx *sql.Tx, ancestor, id string) (bool, error) {
+	visited := make(map[string]bool)
+	todo := []string{id}
+
+	for len(todo) > 0 {
+		cur := todo[0]
+		todo = todo[1:]
+
+		if cur == ancestor {
+			return true, nil
+		}
+
+		if visited[cur] {
+			continue
+		}
+		visited[cur] = true
+
+		rows, err := tx.Query("SELECT up FROM edges WHERE down=?", cur)
+		if err != nil {
+			return false, err
+		}
+
+		for rows.Next() {
+			var up string
+			err := rows.Scan(&up)
+			if err != nil {
+				rows.Close()
+				return false, err
+			}
+			todo = append(todo, up)
+		}
+
+		if err := rows.Close(); err != nil {
+			return false, err
+		}
+	}
+
+	return false, nil
 }
 
 func (sdb *DbSqlite) updateHash(tx *sql.Tx, id string, hashUpdate uint32) error {
